@@ -434,6 +434,11 @@ class CallMixin:
 
     def sp_isinstance(self, n, fr):
         v = self.ev(n.args[0], fr)
+        if not isinstance(n.args[1], ast.Tuple) and isinstance(v, SV):
+            b = self.ev(n.args[1], fr)
+            if isinstance(b, OpaqueV) and b.tag == 'typeof':
+                # isinstance(x, type(y)) over the closed class table
+                return SV(sym.mk_bool(z3.And(sym.is_ref(v.t), self.eng.subclass_term(self.heap.cls(sym.r_of(v.t)), self.heap.cls(sym.r_of(b.payload.t))))))
         names = self._class_names(n.args[1], fr)
         return SV(sym.mk_bool(sym.simp(z3.Or([self.isinstance_of(v, nm, n) for nm in names]))))
 
@@ -453,6 +458,11 @@ class CallMixin:
 
     def sp_issubclass(self, n, fr):
         a = self.ev(n.args[0], fr)
+        if isinstance(a, OpaqueV) and a.tag == 'typeof' and len(n.args) == 2 and not isinstance(n.args[1], ast.Tuple):
+            b = self.ev(n.args[1], fr)
+            if isinstance(b, OpaqueV) and b.tag == 'typeof':
+                # issubclass(type(x), type(y)) over the closed class table
+                return SV(sym.mk_bool(self.eng.subclass_term(self.heap.cls(sym.r_of(a.payload.t)), self.heap.cls(sym.r_of(b.payload.t)))))
         names = self._class_names(n.args[1], fr)
         if isinstance(a, ClassV):
             return sv_const(any(self.repo.is_subclass(a.name, self.eng.canon_class(nm)) for nm in names))
